@@ -34,6 +34,7 @@ class Driver:
         self.mark = 0
         self.tasks = {}
         self.sends = {}       # call id -> future the fake gateway awaits
+        self.sent_ok = set()  # calls whose send_data has returned
         self.task_id = {}
         self.rng = random.Random(7)
         drv = self
@@ -107,6 +108,7 @@ class Driver:
     def send_done(self, i, ok=True):
         fut = self.sends.pop(i)
         if ok:
+            self.sent_ok.add(i)
             fut.set_result(None)
         else:
             fut.set_exception(ConnectionError("scripted link failure"))
@@ -133,10 +135,14 @@ class Driver:
         self._end(("timeout", i))
 
     def race_frame(self, i, seq, name):
-        """the response is handled in the very loop iteration in which the command's timeout expires (the I/O callback runs
-        first, then the due timer, and only afterwards the waiting coroutine resumes).  Whether the call then returns the
-        payload or raises the timeout is left open by the property; it must be one of the two, and everything else must go
-        on as usual.  Not part of the Coq machine: judged by the property predicate."""
+        """the frame is handled in the very loop iteration in which the running command timeout expires (the I/O callback
+        runs first, then the due timer, and only afterwards the waiting coroutine resumes).  The Coq machine has this
+        schedule as the step RRace (model/EzspRace.v): when the frame carries the number of the call whose timeout
+        expires, that call raises the timeout whatever the frame holds.  When the frame does not concern the call whose
+        timeout expires (a callback, a number nobody awaits or whose entry an earlier frame has used up) the iteration is the
+        frame followed by the timeout and is
+        recorded as those two events (the log is cut where frame_received returned); when no timeout is running (the
+        call is still inside send_data) the iteration is just the frame (RRace falls back to the plain frame step)."""
         import bellows.types as t
         cid, tx, rx = self.proto.COMMANDS[name]
         vals = [et.gen_value(ty, self.rng, "rand") for ty in rx.values()] if isinstance(rx, dict) else et.gen_value(rx, self.rng, "rand")
@@ -147,14 +153,32 @@ class Driver:
         self.proto._seq = saved
         lp = self.loop
         lp.settle()
+        w = self.waiting_call()                      # the call whose command timeout is running (None: no timer)
+        ent = self.proto._awaiting.get(seq)
+        own = w is not None and self.last_send.get(w) == seq and ent is not None and not ent[2].done()
         nd = lp.next_deadline()
         if nd is not None:
             lp._vt = max(lp._vt, nd)
-        lp.call_soon(self.ez.frame_received, hdr + payload)
+        io_mark = [None]
+
+        def io(data):
+            try:
+                self.ez.frame_received(data)
+            finally:
+                io_mark[0] = len(self.log)
+        lp.call_soon(io, hdr + payload)
         lp.call_soon(lp.stop)
         lp.run_forever()          # one iteration: [the frame, stop, the due timer]
         lp.settle()
-        self._end(("race", i, seq, cid, et.flat_schema_values(rx, vals)))
+        flat = et.flat_schema_values(rx, vals)
+        invalid = name == "invalidCommand"
+        if w is None or own:
+            self._end(("race", i, seq, cid, flat, invalid, "own" if own else "no_timer"))
+        else:
+            self.events.append(("frame", seq, cid, invalid, flat))
+            self.steps.append(self.log[self.mark:io_mark[0]])
+            self.mark = io_mark[0]
+            self._end(("timeout", w))
 
     def cancel(self, i):
         self.tasks[i].cancel()
@@ -162,6 +186,13 @@ class Driver:
         self._end(("cancel", i))
 
     # ---- introspection for adaptive scripts -----------------------------------------------------------
+    def waiting_call(self):
+        """the call that has sent its request and has not ended: it waits for the response under the command timeout"""
+        for i, t in self.tasks.items():
+            if i in self.sent_ok and not t.done():
+                return i
+        return None
+
     def holder(self):
         """(call id, seq, stage) of the call that owns the send slot"""
         for i, fut in list(self.sends.items()):
@@ -228,6 +259,10 @@ def run_script(version, calls, script, seq0=0, max_steps=60):
                 if r == "cancel":
                     d.cancel(i)
                     continue
+                if r == "race_early":       # race_frame while the call is still inside send_data: no timeout runs yet
+                    d.race_frame(i, seq, name)
+                    d.send_done(i)
+                    continue
                 d.send_done(i)
             if r == "reply":
                 d.frame(seq, name)
@@ -241,6 +276,14 @@ def run_script(version, calls, script, seq0=0, max_steps=60):
                 d.timeout(i)
             elif r == "race":              # the reply and the expiry of the timeout in one loop iteration
                 d.race_frame(i, seq, name)
+            elif r == "race_invalid":      # invalidCommand under the pending number in the iteration of the timeout
+                d.race_frame(i, seq, "invalidCommand")
+            elif r == "race_wrong_id":     # another command's response under the pending number in that iteration
+                d.race_frame(i, seq, "getNodeId" if name != "getNodeId" else "getEui64")
+            elif r == "race_cb":           # a callback frame in the iteration in which the holder's timeout expires
+                d.race_frame(i, (seq + 100) % 256, "stackStatusHandler")
+            elif r == "race_other_seq":    # the right frame under a number nobody awaits, in that iteration
+                d.race_frame(i, (seq + 77) % 256, name)
             elif r == "cb_before":         # a callback (not under a pending number) then the reply
                 d.frame((seq + 100) % 256, "stackStatusHandler")
                 d.frame(seq, name)
@@ -258,7 +301,7 @@ def run_script(version, calls, script, seq0=0, max_steps=60):
                 d.timeout(i)
             elif r == "cancel":
                 d.cancel(i)
-            elif r in ("sendfail", "early_reply"):
+            elif r in ("sendfail", "early_reply", "race_early"):
                 d.frame(seq, name)
             else:
                 raise ValueError(r)
@@ -273,18 +316,23 @@ def run_script(version, calls, script, seq0=0, max_steps=60):
 
 REACTIONS = ["reply", "dup", "late", "never", "cb_before", "cb_after", "other_seq", "invalid", "wrong_id",
              "cancel", "sendfail", "early_reply"]
+# a frame handled in the loop iteration in which the command timeout expires (Driver.race_frame; RRace in the model)
+RACE_REACTIONS = ["race", "race_invalid", "race_wrong_id", "race_cb", "race_other_seq", "race_early"]
 
 
 class Check(PropertyCheck):
     pid = "C06"
     gen_files = ["GenCmd", "GenProto", "GenEzspFn", "GenProtoFn"]
-    model_imports = ["lib.EzspTypes", "gen.GenCmd", "gen.GenProto", "model.EzspCodec", "model.EzspProto", "model.EzspCases"]
-    run_expr = "run_c06_case_from"
-    case_type = "(N * list pevent)"
+    model_imports = ["lib.EzspTypes", "gen.GenCmd", "gen.GenProto", "model.EzspCodec", "model.EzspProto", "model.EzspCases",
+                     "model.EzspRace"]
+    run_expr = "run_c06_race_case"
+    case_type = "(N * list revent)"
     shard = 150
     rule = ("up to N concurrent callers of mixed priority (keep-alive / ordinary / packet-send commands) x per-command NCP behaviour "
             "{reply, duplicate reply, reply after the timeout, never, callback before/after, reply under a foreign number, invalidCommand, "
-            "other command's id under the pending number, link-level send failure, reply before send_data returns} x caller cancellation "
+            "other command's id under the pending number, link-level send failure, reply before send_data returns, a frame (own reply / "
+            "invalidCommand / other command's id / callback / foreign number / while still sending) handled in the loop iteration in "
+            "which the command timeout expires} x caller cancellation "
             "(holder or queued) x late arrivals; handlers that have already issued 250..255 commands (every reaction at the 255 -> 0 wrap); EZSP v4 and v8; non-trivial = more than "
             "one caller or a non-'reply' reaction; distinct by (version, calls, script)")
     assumptions = ["callback frames carry a sequence number that is not pending (firmware convention)",
@@ -338,6 +386,36 @@ class Check(PropertyCheck):
             for s0 in (0, 250, 255):
                 cases.append({"v": v, "seq0": s0, "calls": ["getEui64", "nop", "getNodeId"], "script": ["race", "reply", "race", "reply"]})
                 cases.append({"v": v, "seq0": s0, "calls": ["nop", "sendUnicast"], "script": ["race", "late", "race"]})
+        # ... every kind of frame in that iteration, alone, in pairs with every other reaction, with callers of every
+        # priority class queued behind, and at the 255 -> 0 wrap
+        for v in (4, 8):
+            for r in RACE_REACTIONS:
+                cases.append({"v": v, "calls": ["getEui64"], "script": [r]})
+                cases.append({"v": v, "calls": ["getEui64"], "script": [r, r]})
+                for s0 in (0, 254, 255):
+                    cases.append({"v": v, "seq0": s0, "calls": ["sendUnicast", "getNodeId", "nop"], "script": [r, "reply", r, r]})
+                for r2 in REACTIONS:
+                    if tier == "quick" and rng.random() < 0.5:
+                        continue
+                    cases.append({"v": v, "calls": ["getEui64", "nop"], "script": [r, r2]})
+                    cases.append({"v": v, "calls": ["nop", "sendUnicast"], "script": [r2, r]})
+            for r1, r2 in itertools.product(RACE_REACTIONS, repeat=2):
+                cases.append({"v": v, "calls": ["getNodeId", "sendBroadcast", "readCounters"], "script": [r1, r2, "late", r1]})
+        for _ in range(120 if tier == "quick" else 1500):
+            v = rng.choice([4, 8])
+            calls = [rng.choice(names) for _ in range(rng.randrange(1, 6))]
+            script = []
+            for _ in range(rng.randrange(1, 10)):
+                x = rng.random()
+                if x < 0.4:
+                    script.append(rng.choice(RACE_REACTIONS))
+                elif x < 0.7:
+                    script.append(rng.choice(REACTIONS))
+                elif x < 0.85:
+                    script.append(("newcall", rng.choice(names)))
+                else:
+                    script.append(("cancel_queued", rng.randrange(4)))
+            cases.append({"v": v, "seq0": rng.choice([0, 0, rng.randrange(256), 254, 255]), "calls": calls, "script": script})
         # a call that ended without any reply (no answer, link-level send failure, caller cancelled) leaves its sequence
         # number behind; 256 commands later the number comes round again and that command must complete like any other
         for v in (4, 8):
@@ -357,26 +435,41 @@ class Check(PropertyCheck):
         script = [tuple(x) if isinstance(x, list) else x for x in case["script"]]
         obs = run_script(case["v"], case["calls"], script, case.get("seq0", 0), case.get("max_steps", 60))
         case["_events"] = obs.pop("events")
+        races = [e for e in case["_events"] if e[0] == "race"]
+        if races:
+            n = self._race_stats = getattr(self, "_race_stats", {"cases": 0, "steps_own_number": 0, "steps_no_timer": 0})
+            n["cases"] += 1
+            n["steps_own_number"] += sum(1 for e in races if e[6] == "own")
+            n["steps_no_timer"] += sum(1 for e in races if e[6] != "own")
         return obs
+
+    def extra_checks(self, rep, tier, rng):
+        # measured: how many of the cases compared with the model contain an RRace step (every one is compared: model_input
+        # never returns None), how many of those steps hit a call waiting under the frame's own number (the timeout wins),
+        # and how many found no timeout running (call still inside send_data: plain frame)
+        st = getattr(self, "_race_stats", {"cases": 0, "steps_own_number": 0, "steps_no_timer": 0})
+        rep.cov["race_cases_compared_with_model"] = st["cases"]
+        rep.cov["race_steps_timeout_wins"] = st["steps_own_number"]
+        rep.cov["race_steps_no_timer_running"] = st["steps_no_timer"]
 
     def describe(self, case):
         return {k: v for k, v in case.items() if not k.startswith("_")}
 
     def model_input(self, case):
-        if any(e[0] == "race" for e in case["_events"]):
-            return None
         out = []
         for e in case["_events"]:
             if e[0] == "call":
-                out.append(f"ECall {e[1]} ({e[3]})%Z {e[4]}")
+                out.append(f"REv (ECall {e[1]} ({e[3]})%Z {e[4]})")
             elif e[0] == "senddone":
-                out.append(f"ESendDone {e[1]} {'true' if e[2] else 'false'}")
+                out.append(f"REv (ESendDone {e[1]} {'true' if e[2] else 'false'})")
             elif e[0] == "frame":
-                out.append(f"EFrame (DOk {e[1]} {e[2]} {'true' if e[3] else 'false'} {et.coq_ivals(e[4])})")
+                out.append(f"REv (EFrame (DOk {e[1]} {e[2]} {'true' if e[3] else 'false'} {et.coq_ivals(e[4])}))")
             elif e[0] == "timeout":
-                out.append(f"ETimeout {e[1]}")
+                out.append(f"REv (ETimeout {e[1]})")
             elif e[0] == "cancel":
-                out.append(f"ECancel {e[1]}")
+                out.append(f"REv (ECancel {e[1]})")
+            elif e[0] == "race":
+                out.append(f"RRace (DOk {e[2]} {e[3]} {'true' if e[5] else 'false'} {et.coq_ivals(e[4])})")
         return f"({case.get('seq0', 0)}, [" + "; ".join(out) + "])"
 
     def obs_to_z(self, case, obs):
